@@ -258,7 +258,9 @@ func Run[C any](t *testing.T, prop, rule string, o Opts, gen func(*rapid.T) C, i
 		if os.Getenv("VERIF_TRACE") != "" {
 			_ = os.WriteFile(filepath.Join(outDir(), fmt.Sprintf("%s.%s.current.json", prop, rule)), raw, 0o644)
 		}
+		wedgeEnter(prop, rule, raw, st, start)
 		v := interp(c)
+		wedgeLeave()
 		mu.Lock()
 		st.record(raw, v)
 		mu.Unlock()
